@@ -74,6 +74,7 @@ func H_C12_seq() {
 	first := vfParam("first", -1) // optionally fixes the first shape (job splitting)
 	second := vfParam("second", -1)
 	third := vfParam("third", -1)
+	alpha := vfParam("alpha", 0) // 1: free positions range over a 9-shape sub-alphabet
 	oneid := vfParam("oneid", 0) // every envelope uses stream id 1
 	lazy := vfParam("lazy", 0)   // streaming handler returns at once without reading its input
 	impl := &zzImpl{}
@@ -123,6 +124,10 @@ func H_C12_seq() {
 			shapes[i] = second
 		} else if i == 2 && third >= 0 {
 			shapes[i] = third
+		} else if alpha == 1 {
+			// reduced alphabet for the free positions of long sequences: headerless, valid unary, unary
+			// with bad metadata, stream open, open+body, trailer, reset, empty body, open with bad timeout
+			shapes[i] = []int{0, 5, 6, 7, 9, 10, 11, 14, 16}[vfChoice("shape", 9)]
 		} else {
 			shapes[i] = vfChoice("shape", zzNumShapes)
 		}
